@@ -19,6 +19,7 @@ outcome.
 -/
 import Gms.Model.Rel
 import Gms.Model.PhysKeys
+import Gms.Model.JoinConflict
 
 namespace Gms.PhysRegions
 open Gms.Sql Gms.Rel
@@ -33,6 +34,8 @@ inductive Region where
   | semiJoinDistinctNotByKeyEquality
   | notInAsLeftOuterJoin
   | lookupJoinNullsafeForAllKeyParts
+  | innerConjunctLostByConflictRule
+  | leftJoinReplacedByInnerJoin
   deriving DecidableEq, Repr
 
 def Region.name : Region → String
@@ -45,6 +48,8 @@ def Region.name : Region → String
   | .semiJoinDistinctNotByKeyEquality => "semi_join_distinct_not_by_key_equality"
   | .notInAsLeftOuterJoin => "not_in_as_left_outer_join"
   | .lookupJoinNullsafeForAllKeyParts => "lookup_join_nullsafe_for_all_key_parts"
+  | .innerConjunctLostByConflictRule => "inner_conjunct_lost_by_conflict_rule"
+  | .leftJoinReplacedByInnerJoin => "left_join_replaced_by_inner_join"
 
 /-- Number of top-level conjuncts. -/
 def conjuncts : Expr → Nat
@@ -164,8 +169,32 @@ def isLookupJoinOp (s : String) : Bool :=
 def nullsafeLookupRegion (db : Db) (q : Query) (ops : List String) : Bool :=
   mixedNullsafeOn (joinTree q) && ops.any isLookupJoinOp && dbHasNull db
 
-def region (db : Db) (q : Query) (ops : List String) : Option Region :=
-  if multiConjInnerAboveLeft (joinTree q) && outerAboveInner ops then
+/-- * `inner_conjunct_lost_by_conflict_rule` — see `Gms/Model/JoinConflict.lean`: the join tree is a
+  left-deep chain of inner joins over base tables, and the model of the builder's conflict
+  detection (`calcTES` rules + `applicable`) puts some ON-conjunct over ≥ 2 tables at NO join node of
+  this plan (`leaves` = the chain position of every leaf of the plan skeleton). Decided on the query
+  term and the plan skeleton. Needs ≥ 4 tables (`Gms.C01.no_rules_upto_three_tables`). -/
+def conflictRuleRegion (db : Db) (q : Query) (ops : List String) (leaves : List Nat) : Bool :=
+  Gms.JoinConflict.conjunctLost db (joinTree q) ops leaves
+
+/-- Number of LEFT JOINs of the join tree. -/
+def leftJoins : Query → Nat
+  | .join .left _ l r => 1 + leftJoins l + leftJoins r
+  | .join _ _ l r => leftJoins l + leftJoins r
+  | _ => 0
+
+/-- * `left_join_replaced_by_inner_join` — `ensureClosure` derives from equalities above a LEFT JOIN an
+  edge between the LEFT JOIN's two sides and registers it as an inner edge; `addPlans` may then join
+  the two sides as an INNER join on that edge alone, without the LEFT JOIN's ON. Region: the plan has
+  fewer left outer join operators than the term has LEFT JOINs (no other plan of the generated
+  queries ever has: the builder has no rule that turns a LEFT JOIN into an inner join on purpose). -/
+def leftJoinReplaced (q : Query) (ops : List String) : Bool :=
+  leftJoins (joinTree q) > (ops.filter isLeftOuterOp).length
+
+def region (db : Db) (q : Query) (ops : List String) (leaves : List Nat := []) : Option Region :=
+  if conflictRuleRegion db q ops leaves then some .innerConjunctLostByConflictRule
+  else if leftJoinReplaced q ops then some .leftJoinReplacedByInnerJoin
+  else if multiConjInnerAboveLeft (joinTree q) && outerAboveInner ops then
     some .innerConjunctLostAtOuterJoin
   else if ops.contains "TupleCmp" && dbHasNull db then some .mergeJoinTupleNullKey
   else if sharedNullsafe (joinTree q) then some .transitiveEdgeFromNullsafeEquality
